@@ -4,3 +4,4 @@ POSTCONDITION Accepted
 INVARIANT R_Rows
 INVARIANT R_Flows
 INVARIANT R_NoPanic
+INVARIANT R_Dot
